@@ -153,8 +153,12 @@ LowOK(T, rd, p) ==
 \* (Stop, second half) the headroom of the underused nodes is not used up
 HdOK(T, rd, cs, p) ==
   LET n == rd.pods[p].node IN \A r \in Res : Hd(T, rd, cs, Kind(T, n))[r] > 0
-\* (Fil)
-FilOK(rd, p) == rd.pods[p].pass
+\* (Fil) the pod passes the evictor's filter AT THE MOMENT it is evicted.  The filter may depend on what this round
+\* already evicted: pods of one workload group (wl, "" = none) are let through one at a time (a per-workload limit on
+\* migrating pods, as the migration evictor applies it), so a pod whose group already lost a member this round fails
+Wl(rd, p) == IF "wl" \in DOMAIN rd.pods[p] THEN rd.pods[p].wl ELSE ""
+FilOK(rd, cs, p) == /\ rd.pods[p].pass
+                    /\ (Wl(rd, p) = "" \/ \A i \in OkIdx(rd, cs) : Wl(rd, cs[i].pod) # Wl(rd, p))
 \* (Z) nothing when no node is overloaded, none is underused, all are underused, or not more than NumberOfNodes are
 NothingToDo(cfg, T) ==
   \/ \A n \in Measured(T) : Kind(T, n) = "none"
@@ -170,7 +174,7 @@ Allowed(cfg, T, rd, sN, sP, cs, p) ==
   /\ AnOK(cfg, T, rd, sN, sP, p)
   /\ LowOK(T, rd, p)
   /\ HdOK(T, rd, cs, p)
-  /\ FilOK(rd, p)
+  /\ FilOK(rd, cs, p)
   /\ ZOK(cfg, T)
 
 \* what the specification sees for Evict(p) (explain mode / diagnostics)
@@ -185,7 +189,7 @@ Why(cfg, T, rd, sN, sP, cs, p) ==
         src |-> SrcOK(T, rd, cs, p), an |-> AnOK(cfg, T, rd, sN, sP, p),
         streak |-> IF k = "prod" THEN sP[n] ELSE sN[n], required |-> cfg.anomaly,
         low |-> LowOK(T, rd, p), headroom |-> Hd(T, rd, cs, IF k = "none" THEN "node" ELSE k),
-        hd |-> HdOK(T, rd, cs, p), fil |-> FilOK(rd, p), z |-> ZOK(cfg, T)]
+        hd |-> HdOK(T, rd, cs, p), fil |-> FilOK(rd, cs, p), z |-> ZOK(cfg, T)]
 
 StreakCap == 9
 NextStreak(T, rd, s, prodKind) ==
